@@ -53,6 +53,7 @@ switch (Kind) {
 parts = sort(split(Tags, ","));
 joined = join(parts, "+");
 clean = replace(joined, /[0-9]+/, "#");
+alt = replace(Name, /q|w|_[0-9]/, "") + string(match(Kind, /abc|abcd/));
 last = clean;
 function weight(c, s) { local w; w = c * 2; if (s > 0.5) { w = w + 1; } return w; }
 w = weight(Count, Score);
@@ -243,7 +244,7 @@ func c11Worker(args []string) {
 					}
 					pat := fmt.Sprintf("^w%d_%d[a-z]*%d$", g, k%50, rr.Intn(1000))
 					word := fmt.Sprintf("w%d_%dabc%s", g, k%50, pat[strings.LastIndex(pat, "*")+1:len(pat)-1])
-					script := fmt.Sprintf("c = c + 1; if (Word ~= /%s/ && match(Word, /^w/) && replace(Word, /[0-9]+/, \"\") !~ /[0-9]/) { return c; } return 0 - c;", pat)
+					script := fmt.Sprintf("c = c + 1; if (Word ~= /%s/ && match(Word, /^w/) && replace(Word, /[0-9]+/, \"\") !~ /[0-9]/ && replace(Word, /q|w|_[0-9]/, \"\") !~ /^w/ && match(Word, /q|w|_[0-9]/) && Word ~= /abc|abcd/) { return c; } return 0 - c;", pat)
 					if k%5 == 4 {
 						// a pattern that fails to compile at run time (distinct per goroutine
 						// and round): match() reports false, the script still counts
